@@ -588,7 +588,7 @@ static void yield_point(int kind, uint64_t site, int window) {
   T[self].local++;
   trace_mix(((uint64_t)self << 8) | (uint64_t)kind, site);
   if (kind != K_BLOCKED) g_progress++;
-  if (g_st.steps > g_cfg.max_steps) {
+  if (g_st.steps > g_cfg.max_steps || g_st.switches > g_cfg.max_switches) {
     g_st.budget_exceeded = 1;
     if (kind != K_BLOCKED) return;  // run on serially
   }
@@ -640,6 +640,7 @@ void sim_sched_begin(int ntasks, const sim_sched_cfg* cfg) {
   g_cfg = *cfg;
   if (g_cfg.switch_den == 0) g_cfg.switch_den = 1;
   if (g_cfg.max_steps == 0) g_cfg.max_steps = 5000000;
+  if (g_cfg.max_switches == 0) g_cfg.max_switches = ~0ull;
   g_rng = cfg->seed ^ 0x5bd1e995a1b2c3d4ull;
   g_ndec = 0;
   g_replay_pos = 0;
